@@ -195,8 +195,35 @@ def main_guard(fn):
         rc = fn()
     except SystemExit:
         raise
-    except BaseException:
+    except KeyboardInterrupt:
         traceback.print_exc()
+        print("MACHINERY-FAILURE (exit 2)")
+        sys.exit(2)
+    except BaseException as ex:
+        text = "".join(traceback.format_exception(type(ex), ex, ex.__traceback__))
+        sys.stderr.write(text)
+        # Safety net: an exception that was RAISED INSIDE mystic (innermost frame of the traceback -- also of a pool
+        # worker's remote traceback -- lies in the implementation under test) and that no check caught is the
+        # implementation refusing an input the specification calls legal: on the unchanged tree every check runs
+        # through without it.  That is a violation of the property being checked, not a failure of the machinery.
+        import re
+        frames = re.findall(r'File "([^"]+)", line (\d+), in (\S+)', text)
+        root = os.path.realpath(REPO) + os.sep
+        if frames and os.path.realpath(frames[-1][0]).startswith(root) and not isinstance(ex, (MemoryError, ImportError, SyntaxError)):
+            main = getattr(sys.modules.get("__main__"), "__file__", "") or ""
+            m = re.search(r"check_(C\d\d)", main)
+            prop = m.group(1) if m else "C00"
+            outdir = os.path.join(OUT_DIR, prop)
+            os.makedirs(outdir, exist_ok=True)
+            where = "%s:%s in %s" % (os.path.relpath(frames[-1][0], root), frames[-1][1], frames[-1][2])
+            path = os.path.join(outdir, "replay_raise_%s.json" % hashlib.sha1(text.encode()).hexdigest()[:10])
+            with open(path, "w") as f:
+                json.dump({"property": prop, "key": "raises:uncaught:%s:%s" % (type(ex).__name__, where),
+                           "what": "mystic raised %s at %s while the check drove it with inputs the specification calls legal"
+                                   % (type(ex).__name__, where), "detail": {"traceback": text[-6000:]}}, f, indent=1)
+            print("VIOLATION property=%s replay=%s" % (prop, path))
+            print("  violation class raises:uncaught:%s:%s: 1" % (type(ex).__name__, where))
+            sys.exit(1)
         print("MACHINERY-FAILURE (exit 2)")
         sys.exit(2)
     sys.exit(rc or 0)
